@@ -1,7 +1,7 @@
 (* Property C15 -- invalid inputs are rejected with ValueError/TypeError, never silently used.
    Only the property theorems; each is closed by an exact lemma of C15/Proofs.v. *)
 From Coq Require Import ZArith QArith List Bool String.
-From PB Require Import C15.Model C15.Routing C15.Proofs gen.GenRouting.
+From PB Require Import C15.Model C15.Routing C15.Proofs C15.Lam2D gen.GenRouting.
 Import ListNotations.
 Open Scope Z_scope.
 
@@ -36,6 +36,16 @@ Theorem C15_check_lam_iff : forall v : value,
   v = NoneV \/ exists s, scalar_like v s /\ cast DtFloat s <> Raise OErr /\ le_sc s (zc 0) = false.
 Proof. exact check_lam_iff. Qed.
 Print Assumptions C15_check_lam_iff.
+
+(* _check_lam for the 2-D fitters: the exact accept set for EVERY value -- None, a scalar-like value, or a
+   PAIR (array or list of exactly two), every entry representable and not <= 0 (nan entries pass);
+   anything else (other lengths, strings, one bad entry in either position) is rejected. *)
+Theorem C15_check_lam_2d_iff : forall v : value,
+  run_guard (GCSV false true DtFloat) v = None <->
+  v = NoneV \/ (exists s, scalar_like v s /\ lam_entry_ok s)
+  \/ (exists a b, (v = Arr [a; b] \/ v = Lst [a; b]) /\ lam_entry_ok a /\ lam_entry_ok b).
+Proof. exact check_lam_2d_iff. Qed.
+Print Assumptions C15_check_lam_2d_iff.
 
 (* _check_half_window (1-D): a positive integer (int, integral float, bool, one-element array) *)
 Theorem C15_half_window_1d_iff : forall v : value,
